@@ -16,12 +16,12 @@ pending.  It does not depend on the length of the run: an acknowledgement is nev
 namespace IstioModel.C04
 
 def dresponds (t : Ty) (y : DSys) : DStep → Nat
-  | .serverRecv _ _ =>
+  | .serverRecv _ _ deliver =>
     match y.c2s with
     | [] => 0
     | m :: _ =>
       match shouldRespondDelta y.srv (m.toReq t) with
-      | .out true _ => 1
+      | .out true _ => if deliver then 1 else 0
       | _ => 0
   | .serverPush _ ok _ => if (y.srv t).isSome && ok then 1 else 0
   | _ => 0
@@ -31,7 +31,7 @@ def dresponses (t : Ty) (y : DSys) : List DStep → Nat
   | e :: es => dresponds t y e + dresponses t (dstep t y e) es
 
 def DStep.quiet : DStep → Bool
-  | .serverRecv _ _ => true
+  | .serverRecv _ _ _ => true
   | .clientRecv _ => true
   | _ => false
 
@@ -130,10 +130,10 @@ theorem dquiet_step (t : Ty) (y : DSys) (e : DStep) (hq : e.quiet = true) :
           cases h1 : y.pendSub.isEmpty <;> cases h2 : y.pendUnsub.isEmpty <;> simp_all
         simp only [List.filter_cons, this, if_true, List.filter_nil, List.length_cons, List.length_nil, if_neg hp]
         omega
-  | serverRecv n gen =>
+  | serverRecv n gen deliver =>
     cases hc : y.c2s with
     | nil =>
-      have : dstep t y (.serverRecv n gen) = y := by simp [dstep, hc]
+      have : dstep t y (.serverRecv n gen deliver) = y := by simp [dstep, hc]
       rw [this]; simp [dresponds, hc]
     | cons m rest =>
       have hty : (m.toReq t).ty = t := rfl
@@ -173,12 +173,22 @@ theorem dquiet_step (t : Ty) (y : DSys) (e : DStep) (hq : e.quiet = true) :
             omega
         · -- answered: the debt, if any, is paid; a plain request is answered only against a debt
           obtain ⟨w', hw', hal'⟩ := delta_responded_state_clean y.srv (m.toReq t) s' hr
+          cases deliver
+          · -- answered, nothing went out: no response to pay for, and the record owes nothing
+            have howes0 : owes t s' = 0 := by
+              unfold owes
+              rw [show s' t = some w' from hw']
+              simp [hal']
+            simp only [dstep, hc, hr, dresponds, dpotential, List.filter_cons, howes0, Bool.false_eq_true, if_false]
+            cases hcar : m.carries
+            · simp only [Bool.false_eq_true, if_false]; omega
+            · simp only [if_true, List.length_cons]; omega
           have howes' : owes t (sendDelta s' t n (sentNames t gen) true) = 0 := by
             obtain ⟨w2, hw2, hal2⟩ := sendDelta_always s' t n (sentNames t gen) true w' hw'
             unfold owes
             rw [hw2]
             simp [hal2, hal']
-          simp only [dstep, hc, hr, dresponds, dpotential, List.filter_cons, howes']
+          simp only [dstep, hc, hr, dresponds, dpotential, List.filter_cons, howes', if_true]
           by_cases hcar : m.carries = true
           · simp only [hcar, if_true, List.length_cons]
             omega
@@ -237,7 +247,7 @@ theorem dsettled_tail_silent (t : Ty) (y : DSys) (steps : List DStep) (hq : ∀ 
 example :
     let y := drun .eds DSys.init [.clientWant ["a"] [], .clientFlush]
     dpotential .eds y = 2 ∧
-    dresponses .eds y [.serverRecv "n1" ["a"], .clientRecv none, .serverRecv "n2" [], .clientRecv none, .serverRecv "n3" []] = 1 := by
+    dresponses .eds y [.serverRecv "n1" ["a"] true, .clientRecv none, .serverRecv "n2" [] true, .clientRecv none, .serverRecv "n3" [] true] = 1 := by
   decide
 
 end IstioModel.C04
